@@ -5,7 +5,7 @@ from __future__ import annotations
 import ast
 import itertools
 
-from ..astutil import body_wo_doc, const, inline, is_num, kwarg, returns, single_defs, unparse, NOCONST
+from ..astutil import body_wo_doc, const, const_in, inline, is_num, kwarg, returns, single_defs, unparse, NOCONST
 from ..cfg import CFG, definite_assignment, loaded_names
 from ..index import AnalysisError, Class, Func, dotted, own_nodes
 
@@ -238,8 +238,11 @@ def _v3(ctx, rep, vi: Func):
     for nm in ("qoperations", "num_qoperations"):
         m = sq.methods.get(nm)
         if m is not None:
-            ks = [const(n.test.comparators[0]) for n in own_nodes(m.node) if isinstance(n, ast.If) and isinstance(n.test, ast.Compare)
-                  and unparse(n.test.left) == "mode"]
+            from ..astutil import compared_constants
+            ks = compared_constants(m, "mode")
+            if ks is None:
+                rep.undecided("V3", m, "kinds table in %s" % m.name, "`mode` is compared with values that do not resolve to a literal table")
+                continue
             tables.append((m, m.node, ks))
     for f, node, ks in tables:
         rep.check(sorted(ks) == sorted(KINDS), "V3", f, "kinds table in %s" % f.name if node is f.node else node, "state, povm, gate, mprocess",
@@ -339,15 +342,16 @@ def _cmp(op, a, b):
     return {ast.Lt: a < b, ast.LtE: a <= b, ast.Gt: a > b, ast.GtE: a >= b, ast.Eq: a == b, ast.NotEq: a != b}[type(op)]
 
 
-def _abstract_order_guard(t: ast.AST, consts, counter_defs):
+def _abstract_order_guard(t: ast.AST, consts, counter_defs, vo=None):
     """schedule-order guard -> G or None"""
+    from ..astutil import const_in, literal_seq
     txt = unparse(t)
 
     def kind_at(e):
         # schedule[i][TYPE_INDEX]
         if isinstance(e, ast.Subscript) and isinstance(e.value, ast.Subscript) and unparse(e.value.value) == "schedule":
             i = const(e.value.slice)
-            j = consts.get(unparse(e.slice), const(e.slice))
+            j = consts.get(unparse(e.slice), const_in(vo, e.slice) if vo is not None else const(e.slice))
             if isinstance(i, int) and j == 0:
                 return i
         return None
@@ -361,8 +365,8 @@ def _abstract_order_guard(t: ast.AST, consts, counter_defs):
         if ka is not None and isinstance(op, (ast.NotEq, ast.Eq)) and isinstance(const(r), str):
             v = const(r)
             return G(txt, lambda s, ka=ka, v=v, op=op: _safe(lambda: _cmp(op, s[ka], v)))
-        if ka is not None and isinstance(op, (ast.NotIn, ast.In)) and isinstance(r, (ast.List, ast.Tuple, ast.Set)):
-            vs = [const(x) for x in r.elts]
+        if ka is not None and isinstance(op, (ast.NotIn, ast.In)) and vo is not None and literal_seq(vo, r) is not None:
+            vs = [const(x) for x in literal_seq(vo, r).elts]
             neg = isinstance(op, ast.NotIn)
             return G(txt, lambda s, ka=ka, vs=vs, neg=neg: _safe(lambda: (s[ka] not in vs) if neg else (s[ka] in vs)))
         # counter['kind'] >= 2
@@ -401,14 +405,14 @@ def _v5(ctx, rep, vi: Func, vo: Func):
                 a = st.value.args[0] if st.value.args else None
                 if isinstance(a, ast.ListComp) and unparse(a.generators[0].iter) == "schedule":
                     el = a.elt
-                    if isinstance(el, ast.Subscript) and consts.get(unparse(el.slice), const(el.slice)) == 0:
+                    if isinstance(el, ast.Subscript) and consts.get(unparse(el.slice), const_in(vo, el.slice)) == 0:
                         counter_defs.add(st.targets[0].id)
-    guards = _guards_of(vo, lambda t: _abstract_order_guard(t, consts, counter_defs))
+    guards = _guards_of(vo, lambda t: _abstract_order_guard(t, consts, counter_defs, vo))
     other = [s for s in body_wo_doc(vo.node) if not (isinstance(s, ast.If) and s.body and isinstance(s.body[-1], ast.Raise))
              and not isinstance(s, (ast.Assign, ast.Expr))]
     if other or any(g is None for _, g in guards) or not guards:
         rep.undecided("V5", vo, "order guards", "the validator left the guard-and-raise fragment: %s" % [unparse(s)[:60] for s, g in guards if g is None])
-        return []
+        return None
     gl = [g for _, g in guards]
 
     def accepted(seq):
@@ -479,7 +483,12 @@ def _v5(ctx, rep, vi: Func, vo: Func):
 
 # ------------------------------------------------------------------------------ V6
 def _v6(ctx, rep, order_guards):
+    from ..astutil import const_in
     ix = ctx.ix
+    if order_guards is None:
+        rep.undecided("V6", "quara.qcircuit.experiment.Experiment._validate_schedule_order", "order guards",
+                      "the experiment's order rules could not be read (see V5): the accept languages of the tomographies are not enumerated")
+        return
     for cq, (shape, target_pos) in TOMO.items():
         c = ix.cls(cq)
         v = c.methods.get("_validate_schedules")
@@ -500,7 +509,7 @@ def _v6(ctx, rep, order_guards):
                     if isinstance(t, ast.Compare) and len(t.ops) == 1 and isinstance(t.ops[0], ast.NotEq):
                         l = t.left
                         if isinstance(l, ast.Subscript) and isinstance(l.value, ast.Subscript) and unparse(l.value.value) == "schedule":
-                            i, j, val = const(l.value.slice), const(l.slice), const(t.comparators[0])
+                            i, j, val = const_in(v, l.value.slice), const_in(v, l.slice), const_in(v, t.comparators[0])
                             if isinstance(i, int) and j == 0 and isinstance(val, str):
                                 pins[i] = val
                                 ok = True
@@ -566,7 +575,7 @@ def _v6(ctx, rep, order_guards):
             if r:
                 e = inline(gt, r[0].value)
                 if isinstance(e, ast.Subscript) and isinstance(e.value, ast.Subscript) and is_num(e.slice, 1):
-                    read_pos = const(inline(gt, e.value.slice))
+                    read_pos = const_in(gt, inline(gt, e.value.slice))
         ok = idx_pins == {target_pos: 0} and read_pos == target_pos and pins.get(target_pos) == shape[target_pos]
         rep.check(ok, "V6", v, "%s target position" % c.name, "index of %s at position %d pinned to 0 and read there" % (shape[target_pos], target_pos),
                   "index pins %s, _get_target_index reads position %s, expected position %d (%s)" % (idx_pins, read_pos, target_pos, shape[target_pos]), node=v.node)
